@@ -40,7 +40,8 @@ suite_ok = len(rs) >= 3 and all(x[0] == "ok" for x in rs) and int(rs[0][1]) == 9
 os.makedirs(f"{wt}/tests", exist_ok=True)
 shutil.copy(f"{seed}/demo.rs", f"{wt}/tests/demo.rs")
 demo_mut = sh("cargo test --offline --test demo 2>&1")
-demo_fails_with = demo_mut.returncode != 0 and "test result: FAILED" in demo_mut.stdout
+# a memory-safety change may kill the test binary (abort on a std precondition check) instead of failing a test
+demo_fails_with = demo_mut.returncode != 0 and ("test result: FAILED" in demo_mut.stdout or "process abort signal" in demo_mut.stdout or "SIGSEGV" in demo_mut.stdout)
 sh("git checkout -- src; touch src/*.rs")
 demo_clean = sh("cargo test --offline --test demo 2>&1")
 demo_passes_without = demo_clean.returncode == 0 and "test result: ok" in demo_clean.stdout
